@@ -304,7 +304,16 @@ func curName(rel, name string) string {
 	if curProg == nil {
 		return ""
 	}
-	if f := curProg.Func(rel, name); f != nil {
+	if curProg.fnCache == nil {
+		curProg.fnCache = map[string]*ssa.Function{}
+	}
+	k := rel + "|" + name
+	f, ok := curProg.fnCache[k]
+	if !ok {
+		f = curProg.Func(rel, name)
+		curProg.fnCache[k] = f
+	}
+	if f != nil {
 		return f.Name()
 	}
 	return ""
